@@ -15,6 +15,10 @@ READER_NOTE = ("Trusted: TLC/SANY, CommunityModules, CPython, wave module, the b
                "Durations are generated so that the exact product with the rate is an integer or >= 0.05 from the rounding switch point "
                "(float ambiguity, observation O1); hop sizes below one sample are not generated. Exhaustive only within the tier bound.")
 
+SPLIT_NOTE = ("Trusted: TLC/SANY, CommunityModules, CPython, wave, the recorder in harness/split.py (region bytes are compared with the "
+              "input slice by the projection). Durations live on a 0.1 ms grid; analysis windows whose float product with the rate is "
+              "ambiguous (O1) are not generated; per-window validity is taken from the logged validator (independent of C07).")
+
 CHECKS = {
     "C01": dict(
         text="TLC proves C01 on the implementation-shaped Tokenizer spec for every parameter tuple x validity stream of the tier "
@@ -39,9 +43,29 @@ CHECKS = {
     "C08": dict(
         text="Hand-over timing (at/fl observed at the consumer), exactly one end-of-stream request, append-only output and prefix "
              "consistency (FlushCandidateKept) proved by TLC on the grid; real code run in generator, callback and list mode and "
-             "on every prefix of sampled streams, judged by TLC.",
+             "on every prefix of sampled streams, judged by TLC; split() laziness (samples pulled from a logging AudioSource when each "
+             "region is yielded, single end-of-stream request) judged on SplitTrace.",
         ref="DESIGN.md 5/C08", technique="TLA+ model checking (TLC, invariants + action property) + behaviour replay + trace validation",
         note=TOK_NOTE),
+    "C05": dict(
+        text="TLC proves on Split.tla (Tokenizer + fixed framing with a partial last window + region construction) that a region's "
+             "claimed start (start window x block size) is the true stream offset of its bytes and regions are ordered and disjoint; "
+             "real split()/AudioRegion.split() runs (1/2/4-byte, 1-4 channels, rates 8..44100, partial last windows, three containers, "
+             "custom and energy validators) are recorded at the API boundary and judged by TLC on SplitTrace: geometry + C01-C04 over the windows.",
+        ref="DESIGN.md 5/C05", technique="TLA+ model checking (TLC) + code->spec trace validation with property monitors", note=SPLIT_NOTE),
+    "C06": dict(
+        text="Durations.tla states the window counts in exact integer arithmetic on a 0.1 ms grid; TLC checks them against the wording "
+             "(smallest covering count, largest count not exceeding, reject table) and, as trace judge, recomputes the tokenizer "
+             "parameters from the logged durations and evaluates C02/C03/C04 on the windows of real split() runs on probe recordings "
+             "(isolated bursts of 1..MinLen+1 windows, over-long burst, gaps of MaxSil and MaxSil+1) incl. decimal quotients that are "
+             "not representable in binary floating point; ValueError vs success decided for the whole grid.",
+        ref="DESIGN.md 5/C06", technique="TLA+ model checking (TLC) of the integer formulas + trace validation of real split() runs", note=SPLIT_NOTE),
+    "C09": dict(
+        text="Container kinds (bytes, AudioRegion + method, AudioSource, AudioReader with equal block duration, raw/wav files eager/lazy, "
+             "by extension / audio_format / fmt, Path, stdin) x alias spellings (long / short / both with a conflicting short value, "
+             "incl. falsy values such as energy_threshold=0) x max_read: every run is judged by TLC on SplitTrace against the same "
+             "configuration and must reproduce the regions of the reference run (monitor C09 / peer).",
+        ref="DESIGN.md 5/C09", technique="TLA+ trace validation (TLC) of variant runs against a reference run; model checking of Split.tla", note=SPLIT_NOTE),
     "C10": dict(
         text="TLC proves on the Reader spec that the implementation-shaped wrapper stack (limiter counter, overlap generator phases, "
              "recorder) returns exactly the declarative closed form of the statement for every configuration (n,b,h,max_read,record) "
